@@ -4,7 +4,7 @@ import os, importlib.util
 ID = "C12"
 PROPS = "Props/C12.v"
 COQ_TIMEOUT = 5400   # Coq build of this property incl. rebuilt dependencies; generous: on a loaded machine a rebuild after an upstream edit took > 1500 s
-GEN = ["sm4tables", "sm4consts", "tlssuites"]
+GEN = ["sm4tables", "sm4consts", "tlssuites", "gcmcode"]
 LEGS = [{"driver": "c12", "runner": ("sm4gcm", "Extract/ExtractSM4GCM.v", "Sm4gcm_model")}]
 
 TECHNIQUE = ("Coq proof that a function-by-function model of sm4_gcm.go equals a transcription of NIST SP 800-38D (GF(2^128) multiplication, GHASH, "
@@ -19,7 +19,9 @@ LEVEL_TEXT = ("Theorems in Coq (Props/C12.v) over a model of addition, Rightshif
               "for every 16-byte key, IV of any length, A and P; any history of calls returns for each call the specification's value on the values "
               "at call time (nothing is carried between calls); decrypt(encrypt) returns P and the same tag; the returned tag is "
               "E(K,J0) xor GHASH_H(A,C), two tags under one key/IV agree iff the GHASH values agree, GHASH is additive and a difference confined to one "
-              "block Delta leaves the tag unchanged iff Delta.H^(k+1) = 0. Consumer: every SM4_GCM row of gmtls' suite table names aeadSM4GCM (key 16, implicit nonce 4) - "
+              "block Delta leaves the tag unchanged iff Delta.H^(k+1) = 0. Model = code for the GF(2^128) functions: addition, Rightshift, findYi, MSB, GHASH's calculateLenToBytes "
+              "and multiplication (statements in front of its loop, loop header, loop body at each of the 128 indices from arbitrary loop state) are regenerated from the Go AST on every run "
+              "(Gen/GCMCode.v) and proved equal to the model for all byte inputs (C12_leaf_code_is_model, C12_mult_code_is_model); these functions carry no literal fingerprint any more. Consumer: every SM4_GCM row of gmtls' suite table names aeadSM4GCM (key 16, implicit nonce 4) - "
               "a theorem over the regenerated table; that those AEADs compute this GCM with IV = implicit||explicit nonce is checked by the T "
               "cases only. The model is run (extracted, block "
               "cipher = SM4Spec) against /repo and /repo against crypto/cipher's GCM over sm4.NewCipher (the TLS suites' computation).")
@@ -33,9 +35,10 @@ LEVEL_NOTE = ("Trusted: Coq kernel incl. vm_compute, extraction (ExtrOcamlBasic 
               "destinations are all made inside the functions, are modelled on values; the run checks canaries behind K, IV, A, P, C.")
 TRUSTED_BASE = [
     "translator harness/cmd/gen target sm4consts (integer literals of every function of sm4.go / sm4_gcm.go, package-level variables) -> coq/Gen/SM4Consts.v; sm4tables via the SM4 instantiation",
+    "translator harness/cmd/gen target gcmcode (target_gcmcode.go: symbolic evaluation of the bodies of addition, Rightshift, findYi, MSB, calculateLenToBytes and of multiplication cut at its for loop, from the Go AST - 16-byte slices as cells, loops unrolled, calls inlined, data-dependent ifs merged cell by cell; its reading of Go's for statement and its check that only Z and V are loop-carried) and its N semantics of Go's uint8 operations -> coq/Gen/GCMCode.v; tied to the model by SM4/GCMCodeTie.v, SM4/GCMCodeTieMult.v",
     "hook /repo/gmtls/verif_gcmsuites_verif.go (build tag verif): aeadSM4GCM and the GCM rows of gmCipherSuites via mutualCipherSuiteGM; translator target tlssuites (rows of the suite tables) for C12_tls_suites_use_sm4_gcm",
     "specification coq/SM4/GCMSpec.v transcribed by hand from NIST SP 800-38D; validated by RFC 8998 A.1 (SM4-GCM) as an Example",
-    "model coq/SM4/GCMModel.v written by hand from sm4/sm4_gcm.go; tied by the correspondence run of this check",
+    "model coq/SM4/GCMModel.v written by hand from sm4/sm4_gcm.go; addition, Rightshift, findYi, MSB, calculateLenToBytes, multiplication tied to the source by theorem (SM4/GCMCodeTie.v, SM4/GCMCodeTieMult.v over Gen/GCMCode.v), the other functions (GHASH's block walk, GetY0, incr, GCMEncrypt/GCMDecrypt, Sm4GCM, GetH) by literal fingerprints (SM4/SM4ConstsGCM.v) and the correspondence run of this check",
     "block cipher abstract in the theorems; instantiated by SM4Spec in the runner; C05 ties sm4.go's cipher.Block to SM4Spec",
     "extraction: ExtrOcamlBasic only; OCaml 4.13.1 + dune; runner ocaml/sm4gcm/main.ml and ocaml/conv.ml.tmpl",
     "Go driver harness/cmd/c12 (canaries, crypto/cipher GCM oracle, construction of counter-wrapping IVs); python GCM in checks/c12.py",
